@@ -31,6 +31,10 @@ def has_neg_built_over_compound(ast):
     ch = ast.get("ch", [])
     return (ast["k"] in ("Not", "Imply", "XNor") and any(c["k"] not in ATOM for c in ch)) or any(has_neg_built_over_compound(c) for c in ch)
 
+def _raised(e, res, ast, m, *a, **k):
+    return {"op": "raised", "model": ast_json(ast), "problem": f"to_ge_polyhedron / evaluate raised {type(e).__name__}: {str(e)[:160]}"}
+
+@guarded(_raised)
 def sound_model(res, ast, m, cap):
     """enumerate the column box of the asserted polyhedron"""
     cols, rows = poly_obs(m, True)
@@ -50,6 +54,7 @@ def sound_model(res, ast, m, cap):
                         "problem": f"in-bounds integer point {dict(zip([c for c, _ in cols], pt))} satisfies the asserted polyhedron but its leaf part makes the model false"}
     return None
 
+@guarded(_raised)
 def sound_sampled(res, ast, m, rng, n_env):
     """soundness when the column box is too large to enumerate: leaf assignments (corners and random values) that make the
     model FALSE are extended by every 0/1 assignment of the auxiliary columns; none of the extensions may satisfy all rows"""
@@ -75,6 +80,7 @@ def sound_sampled(res, ast, m, rng, n_env):
                         "problem": f"in-bounds integer point {dict(zip([c for c, _ in cols], x))} satisfies the asserted polyhedron but its leaf part makes the model false"}
     return None
 
+@guarded(_raised)
 def complete_model(res, ast, m, rng, n_env, cap):
     cols, rows = poly_obs(m, True)
     lv = leaves_of(m)
@@ -278,6 +284,8 @@ def replay(payload):
         neg = m.negate()
         print("model", m, "negation", canon(neg), "solver safe:", solver_safe(neg))
         return 0 if solver_safe(neg) else 1
+    if r.get("op") == "raised":
+        print("model", m, "converted:", cols[:3], "..."); return 0
     if r.get("op") == "constructor-safe":
         print("model", canon(m), "solver safe:", solver_safe(m))
         return 0 if solver_safe(m) else 1
